@@ -79,6 +79,11 @@ func (e *Engine) VerifyFunction(fn *ssa.Function, genPanics bool) (u *Unit, err 
 			if multi {
 				suffix = fmt.Sprintf("@ret%d", site.ord)
 			}
+			// vacuity guard: the assumptions accumulated on the way to this return site must not be contradictory
+			// (an obligation that is expected NOT to be discharged; see reportProperty)
+			vo := u.oblige(exit, "vacuity", name, "reachable", "", False, nil)
+			vo.Name += suffix
+			vo.Vacuity = true
 			env := u.contractEnv(fn, fr.params, site.vals, exit, entry)
 			for _, cl := range c.Clauses {
 				if cl.Kind != "ensures" || !cl.visible(e.prop) {
@@ -299,19 +304,32 @@ func (u *Unit) frameObligations(fn *ssa.Function, c *Contract, fr *Frame, entry,
 
 // Query assembles the SMT-LIB text for one obligation.
 func (e *Engine) Query(o *Obligation, prelude string) string {
+	var body strings.Builder
+	u := o.Unit
+	body.WriteString("; ---- unit " + u.name + " ----\n")
+	for _, c := range u.cmds[:o.Prefix] {
+		body.WriteString(c)
+		body.WriteString("\n")
+	}
+	body.WriteString(e.globalAxiomsFor(u, o.Prefix))
+	fmt.Fprintf(&body, "; ---- obligation %s ----\n", o.Name)
+	fmt.Fprintf(&body, "(assert (not (=> %s %s)))\n", o.PC.S, o.Goal.S)
+	body.WriteString("(check-sat)\n")
+	e.pixMu.Lock()
+	if e.pix == nil || e.pixFor != prelude {
+		e.pix = buildPreludeIndex(prelude)
+		e.pixFor = prelude
+	}
+	ix := e.pix
+	e.pixMu.Unlock()
 	var sb strings.Builder
 	sb.WriteString("(set-logic ALL)\n")
-	sb.WriteString(prelude)
-	u := o.Unit
-	sb.WriteString("; ---- unit " + u.name + " ----\n")
-	for _, c := range u.cmds[:o.Prefix] {
-		sb.WriteString(c)
-		sb.WriteString("\n")
+	if e.noFilter {
+		sb.WriteString(prelude)
+	} else {
+		sb.WriteString(ix.filter(body.String()))
 	}
-	sb.WriteString(e.globalAxiomsFor(u, o.Prefix))
-	fmt.Fprintf(&sb, "; ---- obligation %s ----\n", o.Name)
-	fmt.Fprintf(&sb, "(assert (not (=> %s %s)))\n", o.PC.S, o.Goal.S)
-	sb.WriteString("(check-sat)\n")
+	sb.WriteString(body.String())
 	return sb.String()
 }
 
